@@ -3,8 +3,8 @@ import io
 import random
 from typing import Any
 
-from tranpsim import observers, pools
-from tranpsim.core import Evidence, HarnessError, ddmin
+from tranpsim import observers, pools, tasks
+from tranpsim.core import EPOCH_NS, Evidence, HarnessError, ddmin, digest
 from tranpsim.framework import Engine
 from tranpsim.history import HistoryRunner, module_of_cache_file
 from tranpsim.persist import ColdOracle, Project, file_class
@@ -126,6 +126,43 @@ def load_truncated_task(rel: str, offsets: list[int], zeros: bool):
 	return task
 
 
+# customised grammars (the grammar is a user setting, config.yml `grammar:`): rules marked `!` keep their filtered tokens, so the trees
+# carry what the stock grammar never shows -- indenter tokens (value '' for a dedent to column 1, whitespace-only values), keywords and punctuation
+GRAMMAR_VARIANTS = {
+	'keep-block-tokens': [('\nblock: _NEWLINE _INDENT statement+ _DEDENT | simple_stmt', '\n!block: _NEWLINE _INDENT statement+ _DEDENT | simple_stmt')],
+	'keep-keywords': [('\nfunction_def_raw: "def"', '\n!function_def_raw: "def"'), ('\nclass_def_raw: "class"', '\n!class_def_raw: "class"'), ('\nreturn_stmt: "return"', '\n!return_stmt: "return"')],
+}
+
+
+def grammar_view_task(modules: list[str], cache_enabled: bool):
+	"""Parser-level views (the rest of the pipeline does not know the extra tokens) of every module under the configured grammar."""
+	def task(seams: Any) -> dict[str, Any]:
+		from rogw.tranp.syntax.ast.finder import ASTFinder
+		from rogw.tranp.syntax.ast.parser import SyntaxParser
+		app = tasks.make_app(modules, force=True, cache_enabled=cache_enabled)
+		parser = app.resolve(SyntaxParser)
+		out: dict[str, Any] = {}
+		for m in modules:
+			root = parser(m)
+			paths = ASTFinder().full_pathfy(root)
+			out[m] = {'entries': observers.entry_view(root), 'paths': [[p, e.name, e.value if not e.has_child else None, e.is_terminal, e.is_empty] for p, e in paths.items()]}
+		return out
+	return task
+
+
+def first_view_diff(a: Any, b: Any, at: str = 'root') -> dict[str, Any] | None:
+	if a[:5] != b[:5]:
+		return {'at': at, 'restored': a[:5], 'fresh': b[:5]}
+	ca, cb = a[5] or [], b[5] or []
+	if len(ca) != len(cb):
+		return {'at': at, 'restored_children': len(ca), 'fresh_children': len(cb)}
+	for n, (x, y) in enumerate(zip(ca, cb)):
+		d = first_view_diff(x, y, f'{at}.{x[0]}[{n}]')
+		if d:
+			return d
+	return None
+
+
 class C15(Engine):
 	prop = 'C15'
 	rule = ('case = one history (edit/touch/run/lose/clear) over a generated pool; after every run each loaded module tree (restored from the cache '
@@ -149,6 +186,8 @@ class C15(Engine):
 			cases.append({'pool': pool, 'ops': [run, run], 'kind': 'canonical'})
 			cases.append({'pool': pool, 'ops': [run, {'op': 'edit', 'm': leaf, 'v': 1, 'dt': 10**9}, run, run], 'kind': 'canonical'})
 			cases.append({'pool': pool, 'ops': [run, {'op': 'touch', 'm': leaf, 'dt': 10**9}, run, {'op': 'lose', 'pick': 0.3, 'cls': 'symbols'}, run], 'kind': 'canonical'})
+		for variant in sorted(GRAMMAR_VARIANTS):
+			cases.append({'pool': pools.fixed_pool(1), 'ops': [], 'kind': 'grammar', 'variant': variant})
 		ex = pools.example_pool()
 		run = {'op': 'run'}
 		cases.append({'pool': ex, 'ops': [run, run, {'op': 'touch', 'm': 'example.json', 'dt': 10**9}, run, {'op': 'edit', 'm': 'example.FW.string', 'v': 1, 'dt': 10**9}, run, run], 'kind': 'canonical'})
@@ -176,7 +215,46 @@ class C15(Engine):
 	def execute(self, case: dict[str, Any]) -> dict[str, Any]:
 		if case.get('kind') == 'truncation':
 			return self.execute_truncation(case)
+		if case.get('kind') == 'grammar':
+			return self.execute_grammar(case)
 		return C15Runner(case).execute()
+
+	def execute_grammar(self, case: dict[str, Any]) -> dict[str, Any]:
+		"""store (process 1) -> restore (process 2) -> parse without cache (process 3), under a customised grammar; restored must equal fresh."""
+		from tranpsim.persist import DEFAULT_CONFIG
+		proj = Project(case['pool'], {**DEFAULT_CONFIG, 'grammar': 'data/grammar_variant.lark'}, tag='c15g')
+		vs: list[dict[str, Any]] = []
+		counters: dict[str, dict[str, int]] = {'probes': {}, 'faults_fired': {}}
+		try:
+			text = (proj.sc.read('data/grammar.lark') or b'').decode('utf-8')
+			for old, new in GRAMMAR_VARIANTS[case['variant']]:
+				if text.count(old) != 1:
+					raise HarnessError(f'grammar rule not found for variant {case["variant"]}: {old!r}')
+				text = text.replace(old, new)
+			proj.sc.write('data/grammar_variant.lark', text.encode('utf-8'), EPOCH_NS - 10**12)
+			mods = [m for m in case['pool']['modules']]
+			recs = [sim_process(proj.sc.root, grammar_view_task(mods, enabled), timeout=300) for enabled in (True, True, False)]
+			if any(r['status'] != 'ok' for r in recs):
+				bad = next(r for r in recs if r['status'] != 'ok')
+				raise HarnessError(f'grammar variant run failed: {bad.get("error") or bad["status"]}')
+			restored_files = [ev[1] for ev in recs[1].get('trace', []) if ev[0] == 'open-r' and file_class(ev[1]) == 'tree']
+			counters['probes']['trees restored under a customised grammar'] = len(restored_files)
+			if not restored_files:
+				raise HarnessError('second process did not restore any tree')
+			fresh = recs[2]['result']
+			n_empty = 0
+			for label, rec in (('stored-run', recs[0]), ('restored', recs[1])):
+				for m in mods:
+					got, want = rec['result'][m], fresh[m]
+					n_empty += sum(1 for row in want['paths'] if row[3] and row[2] == '')
+					if got != want:
+						d = first_view_diff(got['entries'], want['entries']) or {'paths_differ': True}
+						vs.append({'class': 'restored-tree-differs', 'detail': {'module': m, 'grammar': case['variant'], 'process': label, 'first_diff': d}, 'known': None, 'sig': 'grammar-variant'})
+						break
+			counters['probes']['tokens with an empty value in the compared trees'] = n_empty // 2
+			return {'violations': vs, 'counters': counters, 'distinct': [f"grammar:{case['variant']}"], 'states': [], 'log': digest([case['variant'], [digest(fresh[m]) for m in mods]]), 'processes': 3, 'sim_time_s': 0.0}
+		finally:
+			proj.destroy()
 
 	def execute_truncation(self, case: dict[str, Any]) -> dict[str, Any]:
 		proj = Project(case['pool'], tag='c15trunc')
